@@ -53,6 +53,15 @@ def search(pid, record):
                     "expected": "a frame, Incomplete or an error"}
         last = [l for l in p.stdout.splitlines() if l.startswith("{")]
         return json.loads(last[-1]) if last else {"found": False}
+    if pid in ("C08", "C06") and record.get("file", "").endswith("connection.rs"):
+        p = _run(binary, ["conn-search"])
+        for line in p.stdout.splitlines():
+            if line.startswith("{"):
+                w = json.loads(line)
+                w["scenario"] = "conn-search"
+                return w
+        return {"found": True, "scenario": "conn-search", "kind": "process-died",
+                "observed": "replayer conn-search exited with %d: %s" % (p.returncode, p.stderr[-400:]), "expected": "no panic"}
     return {"found": False, "searched": "no witness generator for this obligation"}
 
 
@@ -67,4 +76,8 @@ def execute(w):
     if w.get("scenario") == "frame-deep":
         d = _run(binary, ["frame-deep", str(w.get("depth", 200000))])
         return d.returncode == 0, "frame-deep exit status %d %s" % (d.returncode, d.stdout.strip()[:300])
+    if w.get("scenario") == "conn-search":
+        p = _run(binary, ["conn-search"])
+        found = p.returncode != 0 or any(l.startswith("{") and json.loads(l).get("found") for l in p.stdout.splitlines())
+        return (not found), p.stdout.strip()[-600:]
     return True, "no executable witness"
